@@ -7,9 +7,9 @@ git checkout -q -- . ; git clean -fdq
 DEMO=$(grep "go test" $S/demo_cmd.txt | head -1 | sed 's/^.*&& *//')
 git apply $S/patch.diff || { echo "patch does not apply"; exit 1; }
 go build ./... || { echo "does not compile"; exit 1; }
-s=0; for i in 1 2 3; do go test -vet=off -count=1 -timeout 25m ./... 2>&1 | grep -q "^FAIL\|--- FAIL" && s=$((s+1)); done; echo "suite with change: $s/3 runs failed"
+s=0; for i in 1 2 3; do timeout 300 go test -vet=off -count=1 -timeout 4m ./... 2>&1 | grep -q "^FAIL\|--- FAIL" && s=$((s+1)); done; echo "suite with change: $s/3 runs failed"
 cp $S/zz_seed_demo_test.go .
-d=0; for i in 1 2 3; do (eval "$DEMO") > /tmp/seedout/demo_with.log 2>&1 || d=$((d+1)); done; echo "demo with change: failed $d/3"
+d=0; for i in 1 2 3; do (timeout 150 bash -c "$DEMO") > /tmp/seedout/demo_with.log 2>&1 || d=$((d+1)); done; echo "demo with change: failed $d/3"
 git apply -R $S/patch.diff
-d=0; for i in 1 2 3; do (eval "$DEMO") > /tmp/seedout/demo_without.log 2>&1 || d=$((d+1)); done; echo "demo without change: failed $d/3"
+d=0; for i in 1 2 3; do (timeout 150 bash -c "$DEMO") > /tmp/seedout/demo_without.log 2>&1 || d=$((d+1)); done; echo "demo without change: failed $d/3"
 git checkout -q -- . ; git clean -fdq
